@@ -494,6 +494,15 @@ type CallAssert struct {
 	Loop   int    // "assert at loop N: expr" / "stop at loop N"
 }
 
+// ModAllExcept: "modifies-all-except T1, T2, ... [if cond]" — every heap location may change except the fields of
+// objects of the listed struct types (and maps of the listed map types); ghost state is havocked except the
+// listed ghost variables (written as ghost:name).
+type ModAllExcept struct {
+	Types []string
+	Guard *Expr
+	Pos   string
+}
+
 type CallbackContract struct { // contract of a function-typed parameter
 	Param    string
 	Requires []*Expr
@@ -513,6 +522,7 @@ type Contract struct {
 	Assumed   []*Expr // postconditions assumed for callers, not proved on the body
 	GhostDefs []GhostDef
 	ModEach   []ModEach
+	ModAll    []ModAllExcept
 	Asserts   []CallAssert
 	ArithUnchecked string // reason: signed overflow assumed not to occur in this function
 	Modifies  []*Expr
@@ -571,7 +581,7 @@ func NewSpecSet() *SpecSet {
 var clauseKeywords = map[string]bool{
 	"pred": true, "pure": true, "func": true, "iface": true, "requires": true, "ensures": true, "modifies": true,
 	"invariant": true, "loop": true, "decreases": true, "panics": true, "mode": true, "ghost": true,
-	"trusted": true, "inline": true, "assumes": true, "axiom": true, "ghostdef": true, "arith": true, "modifies-each": true, "assert": true, "let": true, "stop": true, "import": true, "package": true, "fresh": true, "lemma": true, "callback": true, "noverify": true, "opaque": true,
+	"trusted": true, "inline": true, "assumes": true, "axiom": true, "ghostdef": true, "arith": true, "modifies-each": true, "modifies-all-except": true, "assert": true, "let": true, "stop": true, "import": true, "package": true, "fresh": true, "lemma": true, "callback": true, "noverify": true, "opaque": true,
 }
 
 // LoadSpecFile parses one contract file. pkgPath is the default package for the file.
@@ -763,6 +773,22 @@ func (ss *SpecSet) LoadSpecFile(path, pkgPath string, trustedFile bool) error {
 				}
 				gd.Target, gd.Rhs = t, r
 				cur.GhostDefs = append(cur.GhostDefs, gd)
+			case "modifies-all-except":
+				ma := ModAllExcept{Pos: pos}
+				body := rest
+				if k := strings.Index(body, " if "); k >= 0 {
+					g, err := parse(body[k+4:])
+					if err != nil {
+						return err
+					}
+					ma.Guard = g
+					body = body[:k]
+				}
+				for _, t := range splitTop(body) {
+					ma.Types = append(ma.Types, strings.TrimSpace(t))
+				}
+				cur.ModAll = append(cur.ModAll, ma)
+				cur.HasMod = true
 			case "modifies-each":
 				k := strings.Index(rest, "::")
 				w := strings.Index(rest, " where ")
